@@ -61,6 +61,9 @@ func (o *Op) Encode() []byte {
 }
 
 func DecodeOp(data []byte) (op Op, err error) {
+	if len(data) == 0 {
+		return op, errors.New("empty operation")
+	}
 	op.Type = data[0]
 	switch op.Type {
 	case OpTypeClear:
@@ -136,7 +139,7 @@ func DecodeOp(data []byte) (op Op, err error) {
 	case OpTypeRenameNX:
 		op.Data = &OpRenameNX{}
 	default:
-		err = errors.New("unknown operation type")
+		return op, errors.New("unknown operation type")
 	}
 	err = proto.Unmarshal(data[1:], op.Data)
 	return
